@@ -658,3 +658,67 @@ def native_valuation(w):
     for k, x in g.items():
         v["ghost." + k] = x
     return v
+
+
+def random_walks_delegated(seed, seconds, maxlen=30, clauses=(), skip=HOSTILE):
+    """random legal histories (incremental: one World per walk) with a random re-entry policy per walk; complements the
+    breadth-first search with long histories (reconnects, full close-down).  Returns (found, walks, states)."""
+    import random
+    global EVENTS
+    EVENTS = events()
+    evs = [(n, l, d) for n, l, d in EVENTS if not any(s in n for s in skip)]
+    rnd = random.Random(seed)
+    cbs = ["got_welcome", "got_code", "got_key", "got_verifier", "got_versions", "received"]
+    found = {}
+    t0 = time.time()
+    walks = states = 0
+    fails = []
+
+    def observer(ev):
+        if ev.get("isError"):
+            f = ev.get("failure")
+            if f is not None:
+                fails.append(("logged", f.type.__name__, str(f.value)[:600], tb_tail(f), [c.__name__ for c in f.type.__mro__]))
+    txlog.addObserver(observer)
+    try:
+        while time.time() - t0 < seconds:
+            walks += 1
+            policy = {c: rnd.choice(["close", "send"]) for c in rnd.sample(cbs, rnd.choice([1, 1, 2, 3]))}
+            w = World(rnd.random() < 0.5, policy)
+            h = []
+            del fails[:]
+            # bias towards making progress: an honest peer and a conformant server
+            for _ in range(maxlen):
+                legal = [(n, d) for n, l, d in evs if l(w)]
+                if not legal:
+                    break
+                weights = [4 if n.startswith(("peer.", "msg.claimed", "msg.released", "msg.closed", "msg.welcome({})", "ws.open"))
+                           else 1 for n, _ in legal]
+                n, d = rnd.choices(legal, weights)[0]
+                h.append(n)
+                try:
+                    d(w)
+                except Exception as e:      # noqa
+                    allowed = [al for pre, al in API_ERRORS.items() if n.startswith(pre)]
+                    if not (allowed and type(e).__name__ in allowed[0]):
+                        fails.append(("raised", type(e).__name__, str(e)[:600],
+                                      "".join(traceback.format_tb(e.__traceback__)[-3:]), [c.__name__ for c in type(e).__mro__]))
+                w.clock.advance(0)
+                w.absorb()
+                fl = failures_of(w, fails, n)
+                if fl:
+                    for sig, detail in fl:
+                        if sig not in found or len(found[sig][0]) > len(h):
+                            found[sig] = (list(h), w.defer_stop, detail, list(w.W.reentered), dict(policy))
+                    break
+                states += 1
+                if clauses:
+                    val = native_valuation(w)
+                    for c in clauses:
+                        if all(x in val and val[x] == y for x, y in c):
+                            sig = "clause-violated:" + " & ".join(f"{x}=={y}" for x, y in c)
+                            if sig not in found or len(found[sig][0]) > len(h):
+                                found[sig] = (list(h), w.defer_stop, "reached natively", list(w.W.reentered), dict(policy))
+    finally:
+        txlog.removeObserver(observer)
+    return found, walks, states
